@@ -15,7 +15,7 @@ RULES = {
     "C08.R4": "copy discipline: from_module copies weight and bias with copy_ under no_grad and returns the twin moved to the source device",
     "C08.R5": "walk: quantize iterates named_modules(), applies the filter, forwards **kwargs, and replaces through set_module_by_name only when a twin was built",
     "C08.R7": "weight source: qforward reads the weight only through self.qweight, a plain property that stores nothing and returns quantize_weight(self.weight, <module configuration>) on every unfrozen access (the twin is evaluated with the quantization of its current weight)",
-    "C08.R8": "the float op the twin calls on (input, qweight, bias) is itself right: the quantized linear function returns (*batch, out) with every raw payload matched by its scale once and the bias added after scaling (the typing rules C07.R1/R2/R6, re-checked here)",
+    "C08.R8": "the float op the twin calls on (input, qweight, bias) is itself right: the quantized linear function returns (*batch, out) with every raw payload matched by its scale once and the bias added after scaling (the typing rules C07.R1/R2/R6, the accumulation table C07.R3, the primitive preconditions C07.R5 and the scale-product rule C07.R10, re-checked here)",
     "C08.R9": "dtype and device are kept: the activation-scale buffers of a twin are created with the dtype and device the constructor receives from the source module (a factory call without dtype gives float32 scales, hence float32 outputs from a half-precision model)",
     "C08.R6": "forward pipeline: input/output (re)quantized with input_scale/output_scale and activation_qtype under `activation_qtype is not None`; qforward computes the float op on (input, qweight, bias)",
 }
@@ -123,7 +123,7 @@ def run(chk):
     qweight_source(chk, r2="C08.R7", r3="C08.R7")
     from ..report import AliasedCheck
     from . import c07
-    c07.run(AliasedCheck(chk, {"C07.R1": "C08.R8", "C07.R2": "C08.R8", "C07.R6": "C08.R8"}))
+    c07.run(AliasedCheck(chk, {"C07.R1": "C08.R8", "C07.R2": "C08.R8", "C07.R6": "C08.R8", "C07.R3": "C08.R8", "C07.R5": "C08.R8", "C07.R10": "C08.R8"}))
     chk.assume("torch.nn.Linear/Conv2d/LayerNorm keep each constructor argument in the same-named attribute (torch contract); their signatures are re-read from torch's sources on every run")
 
 
